@@ -106,9 +106,16 @@ def run(chk: Check, eng: Engine) -> None:
                     containers[(c.fq, k)] = f"{c.fq}.{k}"
                     ctxvars.add(f"{c.fq}.{k}")
 
+    # instance attributes that alias a module-/class-level container: self.x = SHARED
+    alias: dict[tuple[str, str], str] = {}
+
     def resolve_binding(f: FuncInfo, e: ast.AST, locs: set[str]) -> Optional[str]:
         """binding id denoted by expression e (a Name or dotted attribute), if any."""
         mod = ix.modules[f.module]
+        if isinstance(e, ast.Attribute) and isinstance(e.value, ast.Name) and e.value.id == "self" and f.cls is not None:
+            for c in f.cls.mro():
+                if (c.fq, e.attr) in alias:
+                    return alias[(c.fq, e.attr)]
         if isinstance(e, ast.Name):
             if e.id in locs:
                 return None
@@ -149,6 +156,18 @@ def run(chk: Check, eng: Engine) -> None:
                             return containers[(c.fq, e.attr)]
         return None
 
+    for f in ix.all_functions:
+        if f.cls is None:
+            continue
+        locs0 = local_names(f)
+        for n in walk_local(f.node):
+            if isinstance(n, (ast.Assign, ast.AnnAssign)) and n.value is not None:
+                for t in (n.targets if isinstance(n, ast.Assign) else [n.target]):
+                    if isinstance(t, ast.Attribute) and isinstance(t.value, ast.Name) and t.value.id == "self" and isinstance(n.value, (ast.Name, ast.Attribute)):
+                        b0 = resolve_binding(f, n.value, locs0)
+                        if b0 is not None and b0 not in ctxvars:
+                            alias[(f.cls.fq, t.attr)] = b0
+                            B(b0, "container")["writers"].setdefault(f.fq, n.lineno)
     for f in ix.all_functions:
         locs = local_names(f)
         globs = {n for st in walk_local(f.node) if isinstance(st, ast.Global) for n in st.names}
@@ -233,6 +252,15 @@ def run(chk: Check, eng: Engine) -> None:
                 b["readers"].setdefault(f.fq, f.line)
                 b["uses"] = sorted({u for u, _ in uses})
                 b["stored_attrs"] = sorted(stored_attrs)
+    # aliased instance attributes: every load is a read
+    for f in ix.all_functions:
+        if f.cls is None:
+            continue
+        for n in walk_local(f.node):
+            if isinstance(n, ast.Attribute) and isinstance(n.ctx, ast.Load) and isinstance(n.value, ast.Name) and n.value.id == "self":
+                for c in f.cls.mro():
+                    if (c.fq, n.attr) in alias:
+                        B(alias[(c.fq, n.attr)], "container")["readers"].setdefault(f.fq, n.lineno)
     # readers of re-bound names and containers
     rebound = {bid for bid, b in bindings.items() if b["kind"] in ("global", "module attribute", "class attribute", "container")}
     by_mod_name: dict[tuple[str, str], str] = {}
@@ -376,3 +404,23 @@ def _module_instance_class(ix, mod: ModuleInfo, name: str) -> Optional[ClassInfo
             if isinstance(r, ClassInfo):
                 return r
     return None
+
+
+# ------------------------------------------------------------------ self-test variants
+from ..mutants import M  # noqa: E402
+
+_AD = "src/fandango/evolution/adaptation.py"
+_EV = "src/fandango/evolution/evaluation.py"
+_G = "src/fandango/language/grammar/grammar.py"
+_P = "src/fandango/language/grammar/parser/parser.py"
+_CMP = "src/fandango/constraints/comparison.py"
+MUTANTS = [
+    M("module-level-solution-set", _EV, "        self._solution_set: set[int] = set()\n", "        self._solution_set: set[int] = _SEEN_SOLUTIONS\n", "R18-a",
+      more=(("class Evaluator:\n    def __init__(", "_SEEN_SOLUTIONS: set[int] = set()\n\n\nclass Evaluator:\n    def __init__("),)),
+    M("class-level-parse-cache", _P, "class Parser:\n    def __init__(self, grammar_rules: dict[NonTerminal, Node]):\n        self._iter_parser = IterativeParser(grammar_rules)\n",
+      "class Parser:\n    _shared: dict = {}\n\n    def __init__(self, grammar_rules: dict[NonTerminal, Node]):\n        self._iter_parser = IterativeParser(grammar_rules)\n        Parser._shared[len(grammar_rules)] = self\n", "R18-a"),
+    M("mutable-default-mutated", _CMP, "        searches: dict[str, NonTerminalSearch] = {}\n        searches.update(", "        searches: dict[str, NonTerminalSearch] = {}\n        left_searches.setdefault(\"__seen__\", None)  # type: ignore\n        searches.update(", "R18-a"),
+    M("tuner-writes-global-cap", _AD, "                self.current_max_repetition = new_max_repetition\n", "                self.current_max_repetition = new_max_repetition\n                Evaluator.shared_max_repetition = new_max_repetition\n", "R18-b"),
+
+]
+TWINS = []
